@@ -230,6 +230,70 @@ def _destructure(body):
     return list(body)
 
 
+def _tailify(body):
+    """Rewrite a statement list so that every `return` is in tail position (last statement of the list, or last statement of
+    a branch of an if/else that is itself the last statement).  `if c: ...; return X` followed by more statements becomes
+    `if c: ...; return X  else: <the rest>`.  Returns None when a return sits inside a loop/try/with."""
+    body = list(body)
+    for i, st in enumerate(body):
+        has_ret = any(isinstance(x, ast.Return) for x in ast.walk(st))
+        if not has_ret:
+            continue
+        if isinstance(st, ast.Return):
+            return body[:i + 1]  # anything after it is dead
+        if isinstance(st, ast.If):
+            rest = body[i + 1:]
+            b = _tailify(st.body)
+            o = _tailify(st.orelse) if st.orelse else []
+            if b is None or o is None:
+                return None
+            b_term = bool(b) and _all_paths_return(b)
+            o_term = bool(o) and _all_paths_return(o)
+            if rest:
+                r = _tailify(rest)
+                if r is None:
+                    return None
+                if b_term and not o_term:
+                    o = o + r
+                elif o_term and not b_term:
+                    b = b + r
+                elif not b_term and not o_term:
+                    # a return somewhere inside but not on every path: duplicate the rest into both branches
+                    if any(isinstance(x, ast.Return) for s2 in b for x in ast.walk(s2)) or any(isinstance(x, ast.Return) for s2 in o for x in ast.walk(s2)):
+                        return None
+                    return body
+                # both terminate: rest is dead
+            new_if = ast.copy_location(ast.If(test=st.test, body=b or [ast.copy_location(ast.Pass(), st)], orelse=o), st)
+            return body[:i] + [new_if]
+        return None  # return inside a loop / try / with
+    return body
+
+
+def _all_paths_return(body):
+    if not body:
+        return False
+    last = body[-1]
+    if isinstance(last, ast.Return):
+        return True
+    if isinstance(last, ast.If) and last.orelse:
+        return _all_paths_return(last.body) and _all_paths_return(last.orelse)
+    return False
+
+
+def _replace_tail_returns(body, make):
+    """apply make(return_node) -> list of statements to every tail return"""
+    if not body:
+        return body
+    last = body[-1]
+    if isinstance(last, ast.Return):
+        return body[:-1] + make(last)
+    if isinstance(last, ast.If):
+        last.body = _replace_tail_returns(last.body, make) or [ast.copy_location(ast.Pass(), last)]
+        if last.orelse:
+            last.orelse = _replace_tail_returns(last.orelse, make)
+    return body
+
+
 class Helper(object):
     def __init__(self, fn, kind, clsname):
         self.fn = fn
@@ -246,6 +310,14 @@ class Helper(object):
         self.body = body
         allrets = [x for s2 in body for x in ast.walk(s2) if isinstance(x, ast.Return)]
         shape_ok = not allrets or (len(allrets) == 1 and body and allrets[0] is body[-1])
+        self.tail = False
+        if not shape_ok and body is not None:
+            tb = _tailify([copy.deepcopy(x) for x in body])
+            if tb is not None and _all_paths_return(tb):
+                body = tb
+                self.body = tb
+                shape_ok = True
+                self.tail = True
         self.ok = not hy.found and shape_ok and bool(body) and not fn.args.vararg and not fn.args.kwarg and not fn.args.kwonlyargs
         # recursion
         for c in ast.walk(fn):
@@ -314,7 +386,7 @@ def _is_call_to(call, helper, in_class):
     return r in ("self", "cls", helper.clsname) and (in_class == helper.clsname or r == helper.clsname)
 
 
-def _instantiate(helper, call, caller, counter):
+def _instantiate(helper, call, caller, counter, keep=()):
     """-> (prelude statements, body statements with returns still in place, selfname) or None"""
     m = _bind(helper, call)
     if m is None:
@@ -337,7 +409,7 @@ def _instantiate(helper, call, caller, counter):
             names[p] = newp
             prelude.append(ast.copy_location(ast.Assign(targets=[ast.Name(id=newp, ctx=ast.Store())], value=copy.deepcopy(arg)), call))
     for loc in stored - set(params):
-        if loc in caller_names:
+        if loc in caller_names and loc not in keep:
             names[loc] = "%s_%s%d" % (loc, "h", counter)
     if helper.kind == "class":
         first = _params(fn)[0]
@@ -406,16 +478,46 @@ def _inline_block(stmts, helpers, in_class, caller, state):
                 if not h.ok or not _is_call_to(call, h, in_class):
                     continue
                 state["n"] += 1
-                inst = _instantiate(h, call, caller, state["n"])
+                # `a, b = self._h()` where the helper ends in `return a, b`: the helper's locals of the same names ARE the
+                # caller's variables (no renaming apart, no copy)
+                keep = ()
+                hret = h.body[-1].value if h.body and isinstance(h.body[-1], ast.Return) else None
+                if mode == "assign" and hret is not None:
+                    tg = st.targets[0]
+                    tn = [x.id for x in tg.elts] if isinstance(tg, ast.Tuple) and all(isinstance(x, ast.Name) for x in tg.elts) else \
+                        ([tg.id] if isinstance(tg, ast.Name) else None)
+                    rn = [x.id for x in hret.elts] if isinstance(hret, ast.Tuple) and all(isinstance(x, ast.Name) for x in hret.elts) else \
+                        ([hret.id] if isinstance(hret, ast.Name) else None)
+                    if tn is not None and tn == rn:
+                        used_before = set(x.id for prev in out for x in ast.walk(prev) if isinstance(x, ast.Name))
+                        if not (set(tn) & used_before):
+                            keep = tuple(tn)
+                inst = _instantiate(h, call, caller, state["n"], keep)
                 if inst is None:
                     continue
                 prelude, body = inst
+                if getattr(h, "tail", False):
+                    if mode == "assign":
+                        mk = lambda r, st=st: [ast.copy_location(ast.Assign(targets=copy.deepcopy(st.targets), value=r.value if r.value is not None else ast.Constant(value=None)), r)]
+                    elif mode == "return":
+                        mk = lambda r: [r]
+                    else:
+                        mk = lambda r: ([ast.copy_location(ast.Expr(value=r.value), r)] if r.value is not None and any(isinstance(x, ast.Call) for x in ast.walk(r.value)) else [])
+                    body = _replace_tail_returns(body, mk)
+                    for s in prelude + body:
+                        ast.fix_missing_locations(s)
+                    out.extend(prelude + body)
+                    state["changed"] = True
+                    done = True
+                    break
                 last = body[-1] if body else None
                 val = None
                 if isinstance(last, ast.Return):
                     body = body[:-1]
                     val = last.value
-                if mode == "assign":
+                if mode == "assign" and keep:
+                    pass
+                elif mode == "assign":
                     body.append(ast.copy_location(ast.Assign(targets=st.targets, value=val if val is not None else ast.Constant(value=None)), st))
                 elif mode == "return":
                     body.append(ast.copy_location(ast.Return(value=val), st))
